@@ -871,4 +871,82 @@ theorem transform_injective (fam : Family) {a b : Loc} (h : transform fam a = tr
   · exact h
 
 
+/-! ## the code before fix V3 (for the refutation witness and its boundary only) -/
+
+/-- the loop of `collect_agent_data` before fix V3: the pops reach the dict object in the heap, which keeps
+    only the keys the drawing code does not consume -/
+def collectInPlace (df : Defaults) (p : Portrayal) : Heap → List Agent → Option (List Entry × Heap)
+  | heap, [] => some ([], heap)
+  | heap, a :: as =>
+    match a.location with
+    | none => none
+    | some l =>
+      let d := portrayed heap p a.id
+      let heap' := match p a.id with
+        | some r => heap.set r (d.filter fun kv => !supportedKeys.contains kv.1)
+        | none => heap
+      (collectInPlace df p heap' as).map fun r => (collectOne df l d :: r.1, r.2)
+
+theorem collect_congr_heap (df : Defaults) (p : Portrayal) {heap heap' : Heap} : ∀ (as : List Agent),
+    (∀ b ∈ as, portrayed heap' p b.id = portrayed heap p b.id) →
+    collectAgentData df heap' p as = collectAgentData df heap p as
+  | [], _ => rfl
+  | a :: as, h => by
+    simp only [collectAgentData]
+    rw [h a (by simp), collect_congr_heap df p as (fun b hb => h b (by simp [hb]))]
+
+/-- the references the portrayal hands out for these agents -/
+def refsOf (p : Portrayal) (as : List Agent) : List Ref := as.filterMap fun a => p a.id
+
+theorem collectInPlace_fst (df : Defaults) (p : Portrayal) : ∀ (as : List Agent) (heap : Heap),
+    (refsOf p as).Nodup →
+    (collectInPlace df p heap as).map (·.1) = collectAgentData df heap p as
+  | [], _, _ => rfl
+  | a :: as, heap, hnd => by
+    simp only [collectInPlace, collectAgentData]
+    cases hl : a.location with
+    | none => rfl
+    | some l =>
+      simp only
+      have hnd' : (refsOf p as).Nodup ∧ ∀ r, p a.id = some r → r ∉ refsOf p as := by
+        unfold refsOf at hnd ⊢
+        rw [List.filterMap_cons] at hnd
+        cases hp : p a.id with
+        | none => rw [hp] at hnd; exact ⟨hnd, fun r e => by cases e⟩
+        | some r =>
+          rw [hp] at hnd
+          have := List.nodup_cons.mp hnd
+          exact ⟨this.2, fun r' e => by cases e; exact this.1⟩
+      have ih := collectInPlace_fst df p as
+        (match p a.id with
+          | some r => heap.set r ((portrayed heap p a.id).filter fun kv => !supportedKeys.contains kv.1)
+          | none => heap) hnd'.1
+      rw [Option.map_map]
+      have hcongr : collectAgentData df
+          (match p a.id with
+            | some r => heap.set r ((portrayed heap p a.id).filter fun kv => !supportedKeys.contains kv.1)
+            | none => heap) p as = collectAgentData df heap p as := by
+        apply collect_congr_heap
+        intro b hb
+        cases hp : p a.id with
+        | none => rfl
+        | some r =>
+          simp only
+          unfold portrayed
+          cases hpb : p b.id with
+          | none => rfl
+          | some rb =>
+            simp only
+            have hne : r ≠ rb := by
+              intro e
+              subst e
+              apply hnd'.2 r hp
+              unfold refsOf
+              rw [List.mem_filterMap]
+              exact ⟨b, hb, hpb⟩
+            simp [List.getD_eq_getElem?_getD, List.getElem?_set_ne hne]
+      rw [← hcongr, ← ih, Option.map_map]
+      rfl
+
+
 end Mesa.Viz
